@@ -402,3 +402,83 @@ def junk_verdict(text):
 
 def _could_be_sentence(text):
     return junk_verdict(text) is None
+
+
+def rand_expr(rng, depth, leaves):
+    if depth == 0 or rng.random() < 0.3:
+        return rng.choice(leaves)
+    k = rng.random()
+    if k < 0.2:
+        return 'not ' + rand_expr(rng, depth - 1, leaves)
+    if k < 0.4:
+        return '(' + rand_expr(rng, depth - 1, leaves) + ')'
+    op = ' and ' if k < 0.7 else ' or '
+    return op.join(rand_expr(rng, depth - 1, leaves) for _ in range(rng.randint(2, 4)))
+
+
+def c15(tier='quick', seed=0):
+    from oslo_policy import _parser, policy
+    rng = random.Random(seed)
+    ev = nt = 0
+    viol = []
+    samples = []
+    leaves = ['role:r0', 'role:r1', 'role:r2', '@', '!', 'rule:x', "'a':%(b)s", 'is_admin:True', 'http://h/%(p)s']
+    n = 3000 if tier == 'quick' else 30000
+    seen = set()
+    only_roles = [l for l in leaves if l.startswith('role:')]
+    for i in range(n):
+        text = rand_expr(rng, rng.randint(1, 4), leaves)
+        ev += 1
+        if text in seen:
+            continue
+        seen.add(text)
+        nt += 1
+        chk = _parser.parse_rule(text)
+        p1 = str(chk)
+        chk2 = _parser.parse_rule(p1)
+        p2 = str(chk2)
+        if len(samples) < 3:
+            samples.append({'text': text, 'printed': p1})
+        if p1 != p2:
+            viol.append({'key': text, 'detail': '%r prints %r which re-parses to %r' % (text, p1, p2)})
+        elif all(t in only_roles or t in ('@', '!', 'and', 'or', 'not', '(', ')') for t in
+                 text.replace('(', ' ( ').replace(')', ' ) ').split()):
+            for roles in all_role_sets(only_roles):
+                if decide(chk, roles) != decide(chk2, roles):
+                    viol.append({'key': text, 'detail': 're-parsed %r decides differently for %s' % (p1, sorted(roles))})
+                    break
+        if len(viol) >= 5:
+            break
+    # rule sets: dump to string, load, compare; always-allow entries print as ''
+    for i in range(200 if tier == 'quick' else 2000):
+        k = rng.randint(0, 6)
+        d = {}
+        for j in range(k):
+            d['n%d' % j] = rng.choice(['', '@', [], rand_expr(rng, 3, leaves)])
+        ev += 1
+        nt += 1
+        R = policy.Rules.from_dict(d)
+        dumped = str(R)
+        R2 = policy.Rules.load(dumped)
+        if sorted(R) != sorted(R2) or any(str(R[x]) != str(R2[x]) for x in R) or str(R2) != dumped:
+            viol.append({'key': repr(d), 'detail': 'rule set %r dumps to %r which loads as %r' % (
+                d, dumped, {x: str(R2[x]) for x in R2})})
+            if len(viol) >= 5:
+                break
+    # RuleDefault equality relies on the printed form
+    for i in range(300):
+        a, b = rand_expr(rng, 3, leaves[:5]), rand_expr(rng, 3, leaves[:5])
+        ev += 1
+        da, db = policy.RuleDefault('p', a), policy.RuleDefault('p', b)
+        if (da == db) != (str(da.check) == str(db.check)):
+            viol.append({'key': repr((a, b)), 'detail': 'RuleDefault equality disagrees with printed checks'})
+        elif da == db:
+            nt += 1
+            for roles in all_role_sets(leaves[:3]):
+                if decide(da.check, roles) != decide(db.check, roles):
+                    viol.append({'key': repr((a, b)), 'detail': 'equal RuleDefaults %r / %r decide differently' % (a, b)})
+                    break
+    return {'name': 'print/parse round trip', 'evaluations': ev, 'distinct_nontrivial': nt,
+            'rule': 'random expressions (depth <= 4, leaves of every built-in kind) printed and re-parsed; random rule '
+                    'sets dumped and loaded; pairs of RuleDefaults compared; distinct = distinct texts',
+            'exhaustive': False, 'samples': samples, 'violations': viol[:5]}
